@@ -63,6 +63,11 @@ CLAIMED = {
    "DESIGN.md §4 C15",
    "Trusted: SSA dominance on syntactic paths; 'guest-derived' = computed from the []uint64 parameter slice or integer parameters of helpers; recognised guard idioms (comparison with a constant that returns).",
    "static: taint/width lint and dominance-based error-discipline rules on go/ssa"),
+ "C13": ("other",
+   "The crash-safety clause is decided completely by a typestate rule over every filecache.Cache.Add implementation (unique temp → copy → Sync → Close → Rename, every error checked before the rename, temp removed on error, no other creator of final names): with POSIX rename atomicity a crash at any statement boundary leaves no entry or a complete one. The load protocol (every read checked for error and length, magic/version first, executable installed only after the CRC test, stale entries deleted, errors become misses), writer/reader layout agreement, a determinism lint of the compile path (all map iterations classified, no clock/randomness) and ownership of the serialised bytes are decided as necessary conditions. Byte-equality of two compilations is not decided.",
+   "DESIGN.md §4 C13",
+   "Trusted: POSIX rename atomicity, os.CreateTemp uniqueness; recognised statement idioms of the repository (anything else is reported, not passed); the classification table of map ranges (6 symbols with reasons, the 'sorted afterwards' ones re-verified).",
+   "static: typestate / must-pass-through on typed syntax and go/ssa dominance; sibling layout comparison; determinism lint"),
 }
 
 NOT_APPLICABLE = {
